@@ -1,0 +1,6 @@
+//go:build !verif
+
+package iavl
+
+// verifPoint is a no-op unless the package is built with the "verif" tag (hooks_verif.go).
+func verifPoint(string) {}
